@@ -290,3 +290,138 @@ pub fn enumerate(ctx: &Ctx, cfg: &EnumCfg) -> EnumStats {
     let distinct_images = images.lock().unwrap().len() as u64;
     EnumStats { sequences: seqs.load(Relaxed), checked_steps: checked.load(Relaxed), replayed_steps: replayed.load(Relaxed), distinct_images }
 }
+
+// ---------------------------------------------------------------------- //
+// C15: net-zero cycles
+
+#[derive(Clone, Debug, serde::Serialize, serde::Deserialize)]
+pub struct CycleCase {
+    pub version: u16,
+    pub seed: String,
+    pub prefix: Vec<Op>,
+    pub cycle: Vec<Op>,
+    pub reopen_between: bool,
+    pub reps: usize,
+}
+
+pub enum CycleVerdict {
+    /// the cycle is not net-zero / not applicable from this prefix
+    Skipped,
+    /// lengths after each repetition
+    Lens(Vec<usize>),
+    Problem(String, String),
+}
+
+pub fn run_cycle(c: &CycleCase) -> CycleVerdict {
+    let mut r = match crate::seeds::build(&c.seed, c.version) {
+        Ok(r) => r,
+        Err(e) => return CycleVerdict::Problem("machinery".into(), e),
+    };
+    for op in &c.prefix {
+        let rep = r.step(op, &Oracles::LIGHT, &[]);
+        if !rep.problems.is_empty() || r.desync {
+            return CycleVerdict::Skipped; // the prefix itself is another check's business
+        }
+    }
+    let m0 = r.model.clone();
+    let mut lens = Vec::new();
+    for _ in 0..c.reps {
+        for op in &c.cycle {
+            let rep = r.step(op, &Oracles::LIGHT, &[]);
+            if let Some((class, msg)) = rep.problems.into_iter().next() {
+                if class == "panic" {
+                    return CycleVerdict::Problem(class, msg);
+                }
+                return CycleVerdict::Skipped;
+            }
+            if !rep.outcome.is_ok() {
+                return CycleVerdict::Skipped;
+            }
+        }
+        if r.model != m0 {
+            return CycleVerdict::Skipped;
+        }
+        lens.push(r.live.mem.len());
+        if c.reopen_between {
+            if let Err(e) = r.reopen() {
+                return CycleVerdict::Problem("reopen".into(), e);
+            }
+        }
+    }
+    CycleVerdict::Lens(lens)
+}
+
+pub struct CycleStats {
+    pub cases: u64,
+    pub applicable: u64,
+    pub steps: u64,
+    pub distinct_prefix_states: u64,
+}
+
+pub fn cycles(ctx: &Ctx, version: u16, seeds: &[String], prefix_ops: &[Op], prefix_depth: usize, cycle_list: &[Vec<Op>]) -> CycleStats {
+    // all prefixes: sequences of length 0..=depth (refused ones pruned by run)
+    let mut prefixes: Vec<Vec<Op>> = vec![vec![]];
+    let mut level: Vec<Vec<Op>> = vec![vec![]];
+    for _ in 0..prefix_depth {
+        let mut next = Vec::new();
+        for p in &level {
+            for op in prefix_ops {
+                let mut q = p.clone();
+                q.push(op.clone());
+                next.push(q);
+            }
+        }
+        prefixes.extend(next.iter().cloned());
+        level = next;
+    }
+    let mut work: Vec<CycleCase> = Vec::new();
+    for seed in seeds {
+        for p in &prefixes {
+            for cy in cycle_list {
+                for reopen_between in [false, true] {
+                    work.push(CycleCase { version, seed: seed.clone(), prefix: p.clone(), cycle: cy.clone(), reopen_between, reps: 3 });
+                }
+            }
+        }
+    }
+    let applicable = std::sync::atomic::AtomicU64::new(0);
+    let steps = std::sync::atomic::AtomicU64::new(0);
+    let states: Mutex<HashSet<(u64, u64)>> = Mutex::new(HashSet::new());
+    work.par_iter().for_each(|c| {
+        use std::sync::atomic::Ordering::Relaxed;
+        match run_cycle(c) {
+            CycleVerdict::Skipped => {}
+            CycleVerdict::Problem(class, msg) => {
+                ctx.report(crate::report::Violation { sig: format!("{}:{}", class, crate::report::sig_norm(&msg)), class, msg, replay: json!({"kind": "cycle", "cycle": c}) });
+            }
+            CycleVerdict::Lens(lens) => {
+                applicable.fetch_add(1, Relaxed);
+                steps.fetch_add((c.prefix.len() + c.cycle.len() * c.reps) as u64, Relaxed);
+                states.lock().unwrap().insert(key128(version, format!("{}|{:?}", c.seed, c.prefix).as_bytes(), &[]));
+                if applicable.load(Relaxed) % 997 == 1 {
+                    ctx.sample(json!({"cycle_case": c, "file_len_after_each_repetition": lens}));
+                }
+                if lens.windows(2).any(|w| w[0] != w[1]) {
+                    let kind: Vec<String> = c.cycle.iter().map(crate::runner::op_kind).collect();
+                    let sizes: Vec<String> = c
+                        .cycle
+                        .iter()
+                        .filter_map(|o| match o {
+                            Op::Rewrite(_, n) => Some(if *n == 0 { "empty" } else if *n < 4096 { "mini" } else { "regular" }.to_string()),
+                            _ => None,
+                        })
+                        .collect();
+                    ctx.report(crate::report::Violation {
+                        class: "growth".into(),
+                        sig: format!("growth:{}:{}:reopen={}", kind.join("+"), sizes.join("+"), c.reopen_between),
+                        msg: format!("file length after repetitions 1..{} of a net-zero cycle: {:?} (cycle {:?})", c.reps, lens, c.cycle),
+                        replay: json!({"kind": "cycle", "cycle": c}),
+                    });
+                }
+            }
+        }
+    });
+    use std::sync::atomic::Ordering::Relaxed;
+    let distinct_prefix_states = states.lock().unwrap().len() as u64;
+    CycleStats { cases: work.len() as u64, applicable: applicable.load(Relaxed), steps: steps.load(Relaxed), distinct_prefix_states }
+}
